@@ -45,6 +45,11 @@ def fail(node, what):
 
 
 # ------------------------------------------------------------------ enums
+# enums whose `_missing_` accepts alias spellings; for every other enum `Enum(value)` accepts exactly the members and their values - code
+# that compares a raw argument with a member (`GCodeCore.set_distance_mode`) relies on that
+ALIASED_ENUMS = {"Direction", "SpinMode", "TimeUnits", "LengthUnits"}
+
+
 def read_enums(repo: Path):
     enums = {}
     for f in sorted((repo / "gscrib" / "enums").rglob("*.py")):
@@ -58,6 +63,8 @@ def read_enums(repo: Path):
                         members.append((st.targets[0].id, st.value.value))
                 if members:
                     enums[node.name] = members
+                    if any(isinstance(st, ast.FunctionDef) and st.name == "_missing_" for st in node.body) != (node.name in ALIASED_ENUMS):
+                        raise Unsupported(f"enum {node.name}: a `_missing_` hook (alias spellings) is expected exactly for {sorted(ALIASED_ENUMS)}")
     return enums
 
 
